@@ -372,7 +372,7 @@ func initLibExternals() {
 			out := make([]value, 0, len(l))
 			for _, b := range l {
 				bi := b.(iface)
-				f := fr.i.prog.LookupMethod(bi.t, nil, "Message")
+				f := fr.i.findMethod(bi.t, "Message")
 				if f == nil {
 					unsupported("broadcast without Message method")
 				}
